@@ -2,6 +2,8 @@ package main
 
 import (
 	"fmt"
+	"go/ast"
+	"go/constant"
 	"go/types"
 	"runtime/debug"
 	"sort"
@@ -57,6 +59,16 @@ func verifyFunc(w *World, fn *ssa.Function, fc *FuncContract) (fr *FuncResult) {
 	for i, p := range fn.Params {
 		f.vals[p] = args[i]
 	}
+	if len(w.contracts.GlobalInvs) > 0 {
+		genv := &SpecEnv{vars: map[string]Val{}, st: st}
+		for _, c := range w.contracts.GlobalInvs {
+			if !e.mentionsUsedGlobal(c, fn) {
+				continue
+			}
+			e.assume(e.safeEvalBool(c, genv))
+			e.assumed = append(e.assumed, "package-level invariant established by the initialiser (assumed): "+c.Text)
+		}
+	}
 	if fc != nil {
 		env := e.baseEnv(f, st)
 		for _, c := range fc.Requires {
@@ -100,9 +112,7 @@ func verifyFunc(w *World, fn *ssa.Function, fc *FuncContract) (fr *FuncResult) {
 		}
 	}
 	for _, o := range e.obls {
-		if len(o.Probes) == 0 {
-			o.Probes = probes
-		}
+		o.Probes = append(o.Probes, probes...)
 	}
 	fr.Enc = e
 	fr.Obls = e.obls
@@ -177,4 +187,124 @@ func verifyLemma(w *World, lm *Lemma) (fr *FuncResult) {
 	e.obls = append(e.obls, o)
 	fr.Enc, fr.Obls, fr.Lines = e, e.obls, len(e.lines)
 	return fr
+}
+
+// mentionsUsedGlobal: the invariant is only assumed in functions that read one
+// of the package-level variables it mentions (keeps scripts small).
+func (e *Enc) mentionsUsedGlobal(c *Clause, fn *ssa.Function) bool {
+	used := map[string]bool{}
+	var visit func(f *ssa.Function, depth int)
+	seen := map[*ssa.Function]bool{}
+	visit = func(f *ssa.Function, depth int) {
+		if seen[f] || depth > 3 {
+			return
+		}
+		seen[f] = true
+		for _, b := range f.Blocks {
+			for _, ins := range b.Instrs {
+				for _, op := range ins.Operands(nil) {
+					if g, ok := (*op).(*ssa.Global); ok {
+						used[g.Name()] = true
+					}
+				}
+				if ci, ok := ins.(ssa.CallInstruction); ok {
+					if callee := ci.Common().StaticCallee(); callee != nil && callee.Pkg == e.w.pkg {
+						visit(callee, depth+1)
+					}
+				}
+			}
+		}
+	}
+	visit(fn, 0)
+	found := false
+	ast.Inspect(c.Expr, func(n ast.Node) bool {
+		if id, ok := n.(*ast.Ident); ok && used[id.Name] {
+			found = true
+		}
+		return true
+	})
+	return found
+}
+
+// replacerLemma reads the constant arguments of the strings.NewReplacer call
+// that initialises a package-level replacer and states, as a lemma over all
+// runes, that the replacement table equals spec_escFirst / spec_escSecond.
+func replacerLemma(w *World, rp *ReplacerSpec) (*Lemma, error) {
+	initFn := w.pkg.Func("init")
+	var pairs [][2]string
+	found := false
+	for _, b := range initFn.Blocks {
+		for _, ins := range b.Instrs {
+			st, ok := ins.(*ssa.Store)
+			if !ok {
+				continue
+			}
+			g, ok := st.Addr.(*ssa.Global)
+			if !ok || g.Name() != rp.Global {
+				continue
+			}
+			call, ok := st.Val.(*ssa.Call)
+			if !ok || call.Common().StaticCallee() == nil || call.Common().StaticCallee().String() != "strings.NewReplacer" {
+				return nil, fmt.Errorf("%s is not initialised by strings.NewReplacer", rp.Global)
+			}
+			sl, ok := call.Common().Args[0].(*ssa.Slice)
+			if !ok {
+				return nil, fmt.Errorf("%s: argument list is not a literal", rp.Global)
+			}
+			vals := map[int64]string{}
+			n := int64(0)
+			for _, ref := range *sl.X.Referrers() {
+				ia, ok := ref.(*ssa.IndexAddr)
+				if !ok {
+					continue
+				}
+				idx, ok := ia.Index.(*ssa.Const)
+				if !ok {
+					return nil, fmt.Errorf("%s: non-constant index", rp.Global)
+				}
+				for _, r2 := range *ia.Referrers() {
+					if s2, ok := r2.(*ssa.Store); ok {
+						c, ok := s2.Val.(*ssa.Const)
+						if !ok {
+							return nil, fmt.Errorf("%s: non-constant argument", rp.Global)
+						}
+						vals[idx.Int64()] = constant.StringVal(c.Value)
+						if idx.Int64()+1 > n {
+							n = idx.Int64() + 1
+						}
+					}
+				}
+			}
+			if n%2 != 0 || n == 0 {
+				return nil, fmt.Errorf("%s: odd argument count", rp.Global)
+			}
+			for i := int64(0); i < n; i += 2 {
+				pairs = append(pairs, [2]string{vals[i], vals[i+1]})
+			}
+			found = true
+		}
+	}
+	if !found {
+		return nil, fmt.Errorf("no initialiser found for %s", rp.Global)
+	}
+	first, second := "c", "0"
+	for i := len(pairs) - 1; i >= 0; i-- {
+		o, nw := pairs[i][0], []rune(pairs[i][1])
+		if len(o) != 1 || o[0] >= 0x80 || len(nw) < 1 || len(nw) > 2 {
+			return nil, fmt.Errorf("%s: pair %q -> %q is outside the modelled shape (one ASCII byte to one or two runes)", rp.Global, pairs[i][0], pairs[i][1])
+		}
+		s2 := "0"
+		if len(nw) == 2 {
+			s2 = fmt.Sprint(int(nw[1]))
+		}
+		first = fmt.Sprintf("ite(c == %d, %d, %s)", o[0], nw[0], first)
+		second = fmt.Sprintf("ite(c == %d, %s, %s)", o[0], s2, second)
+	}
+	txt := fmt.Sprintf("spec_escFirst(%s, c) == %s && spec_escSecond(%s, c) == %s", rp.Quote, first, rp.Quote, second)
+	ex, err := parseSpec(txt)
+	if err != nil {
+		return nil, err
+	}
+	return &Lemma{Name: "replacer " + rp.Global, Props: rp.Props, Text: fmt.Sprintf("table of %s %v == spec_esc(%s, .): forall c rune :: %s", rp.Global, pairs, rp.Quote, txt),
+		Vars: []LemmaVar{{"c", "rune"}}, Expr: ex, File: rp.File, Line: rp.Line}, nil
 }
